@@ -164,6 +164,22 @@ def worker(case, led):
                     rel = "equal" if np.abs(got - ref).max() <= TOL else ("result == conj(rho)" if np.abs(got - ref.conj()).max() <= TOL else "other")
                     led.check(rel == "equal", "post:Mps.calc_2site_rdm:partial_trace", "Mps.calc_2site_rdm",
                               f"sites {(i, j)}: differs from the partial trace ({rel})", key + ("rdm2", i, j), dict(fields, relation=rel), dict(rep, sites=[i, j]))
+                # call-history independence: measure, change the SAME object in place, measure again - the second measurement is that of the state the object now holds
+                try:
+                    a2 = a.copy()
+                    a2.calc_1site_rdm()
+                    for how_, act in (("scale(-0.5, inplace=True)", lambda x_: x_.scale(-0.5, inplace=True)), ("normalize('mps_norm_to_coeff')", lambda x_: x_.normalize("mps_norm_to_coeff")),
+                                      ("scale(2j, inplace=True)", lambda x_: x_.scale(2j, inplace=True)), ("canonicalise()", lambda x_: x_.canonicalise())):
+                        act(a2)
+                        # (the observables of the package are those of the tensors; the separate prefactor `coeff` keeps the norm that normalize(...) took out)
+                        v2 = S.dense(a2, with_coeff=False)
+                        ra = a2.calc_1site_rdm()
+                        ok = all(np.abs(np.asarray(ra[i]) - rdm_ref(v2, dims, [i])).max() <= TOL * max(1.0, np.vdot(v2, v2).real) for i in range(n))
+                        led.check(ok, "post:Mps.calc_1site_rdm:second_measurement_after_an_in_place_change", "Mps.calc_1site_rdm",
+                                  f"after {how_} on the measured object its RDMs are not those of the state it now holds", key + ("rdm-history", how_), dict(fields, change=how_),
+                                  dict(rep, history=f"measure; {how_}; measure"))
+                except Exception as e:
+                    led.check(False, "post:Mps.calc_1site_rdm:total", "Mps.calc_1site_rdm", f"measure / change in place / measure raised {type(e).__name__}: {e}", key + ("rdm-history",), fields, rep)
                 if n >= 2:
                     led.check(set(r2.keys()) == {(i, j) for i in range(n) for j in range(i + 1, n)}, "post:Mps.calc_2site_rdm:all_pairs", "Mps.calc_2site_rdm",
                               f"keys {sorted(r2.keys())}", key + ("rdm2keys",), fields, rep)
